@@ -362,6 +362,46 @@ def run(repo='/repo', tier='quick'):
                     if P.K(x) == want:
                         res.check(n_ in helpers, 'C03.b', '%s:raw-line-view' % n_, 'the raw unconsumed span is read only by the buffering helpers',
                                   '%s reads current_data + consume_offset directly: bytes buffered from earlier chunks are not part of that view' % n_, x['loc'])
+    # ---------------- C03.f  the carry buffer and its size are one value
+    res.rule('C03.f', 'the carry buffer pointer and its size change together: every store to {in,out}_buf is followed on every path (other than the allocation-failed exit) by a store of the matching size to {in,out}_buf_size - NULL with 0, malloc(N) with N, realloc(_, N) with N; the limit check reads the size without looking at the pointer')
+    nbuf = 0
+    for d in ('in', 'out'):
+        bf, sz = d + '_buf', d + '_buf_size'
+        for n_, f in sorted(db.fn.items()):
+            for b, i, x in P.field_writes(f, bf):
+                if x['k'] != 'assign' or x.get('op') != '=' or strip(x['l']).get('rec') != 'htp_connp_t':
+                    continue
+                nbuf += 1
+                r = strip(x['r'])
+                want = None
+                if is_lit(r, 0):
+                    want = '0'
+                else:
+                    src = r
+                    if r.get('k') == 'var':
+                        inits = [v['init'] for bb, ii, s2 in f.stmts() for dcl in nodes(s2, lambda y: y.get('k') == 'decl') for v in dcl['vars'] if v.get('did') == r.get('did') and 'init' in v]
+                        src = strip(inits[0]) if len(inits) == 1 else None
+                    if src is not None and src.get('k') == 'call' and src.get('callee') in ('malloc', 'realloc'):
+                        want = P.K(src['args'][-1])
+                key = '%s:%s=%s' % (n_, bf, P.K(x['r'])[:30])
+                if want is None:
+                    res.unknown('C03.f', key, 'store to the carry buffer pointer from a source whose size is not recognised', x['loc'])
+                    continue
+                lk = P.K(x['l'])
+
+                def edge_ok(bb, j):                       # leave out the allocation-failed arm (pointer tested NULL right after the store)
+                    c = f.cond_of(bb)
+                    if c:
+                        a = P.canon(c[0])
+                        if a and a[0] == lk and a[2] == '0' and ((a[1] == '==' and j == 0) or (a[1] == '!=' and j == 1)):
+                            return False
+                    return True
+                ok, why = C.every_path_passes(f, (b, i), None, lambda st: any(w['k'] == 'assign' and w.get('op') == '=' and P.K(w['r']) == want for w in P.assigns_field(st, sz)), edge_ok)
+                if not ok:                                # or the size was stored just before, in the same block
+                    ok = any(w['k'] == 'assign' and w.get('op') == '=' and P.K(w['r']) == want for ii in range(i) for w in P.assigns_field(f.blocks[b]['stmts'][ii], sz))
+                res.check(ok, 'C03.f', key, '%s = %s follows on every path' % (sz, want),
+                          '%s stores %s without setting %s to %s on every path: the hard-limit check (%s + len) and the append offset read the size on their own, so what a later line may buffer depends on how earlier lines were cut' % (n_, S(x)[:60], sz, want, sz), x['loc'])
+    res.floor('C03.f', 'stores to the carry buffer pointers', nbuf, 6)
     # ---------------- C03.c
     for name in ('htp_connp_req_buffer', 'htp_connp_res_buffer'):
         f = db.get(name)
